@@ -12,9 +12,17 @@ const SCALARS: [f64; 4] = [2.0, -3.0, 0.5, 0.0];
 
 pub fn run_unary<T: W>(n: usize, fs: FillSet, shard: (usize, usize), seed: u64) {
     let fi = crate::unary::shard_fill(n_fills(1, n, fs), shard.0, shard.1);
-    let a: Vec<f64> = fill(fi, 1, n, fs, seed).round::<T>().v;
+    let a: Vec<f64> = fill_t::<T>(fi, 1, n, fs, seed).v;
     let v: Vec<T> = vt::<T>(&a);
-    let op = UOPS[mc::choose(UOPS.len())];
+    // adjacent floats (round 7): exact selections, means, correctly rounded arithmetic and
+    // approximate_eq against one-ulp neighbours (var / std / finite norms: outside the quantifier)
+    const ADJ_UOPS: &[&str] = &["basic", "sum_mean", "norms", "unique", "scalar", "elem_mut", "approx_adjacent"];
+    let adj = fs.is_adjacent();
+    if adj {
+        mc::count("adjacent_vec");
+    }
+    let uops = if adj { ADJ_UOPS } else { UOPS };
+    let op = uops[mc::choose(uops.len())];
     let what = || format!("[{} {} input {:?}]", T::NAME, fill_name(fi, fs), a);
     let lc = if n == 1 { "length-1" } else { "length>1" };
     let sg = sign_class(&a);
@@ -41,14 +49,16 @@ pub fn run_unary<T: W>(n: usize, fs: FillSet, shard: (usize, usize), seed: u64) 
         "sum_mean" => {
             let s: f64 = a.iter().sum();
             expect_s::<T>(&Cx { op: "vec.sum", class: sg, what: &what }, mc::guard(|| v.sum()), s, 4.0 * nf * T::EPS * sum_abs(&a));
-            expect_s::<T>(&Cx { op: "vec.mean", class: sg, what: &what }, mc::guard(|| v.mean()), s / nf, 4.0 * nf * T::EPS * sum_abs(&a) / nf);
+            // + SUB: the division may round in the subnormal range (absolute error <= SUB/2 < 1e-44)
+            expect_s::<T>(&Cx { op: "vec.mean", class: sg, what: &what }, mc::guard(|| v.mean()), s / nf, 4.0 * nf * T::EPS * sum_abs(&a) / nf + T::SUB);
         }
         "var_std" => {
             let (mu, var) = (mean_of(&a), var_of(&a).max(0.0));
             judge_var_std::<T>(&v, n, mu, var, &what);
         }
         "norms" => {
-            let pi = mc::choose(NORM_PS.len() + 1);
+            // adjacent floats: the two infinite norms only (exact selections of max |x| / min |x|)
+            let pi = if adj { 4 + mc::choose(2) } else { mc::choose(NORM_PS.len() + 1) };
             if pi == NORM_PS.len() {
                 let want = a.iter().map(|x| x * x).sum::<f64>().sqrt();
                 expect_s::<T>(&Cx { op: "vec.norm2", class: sg, what: &what }, mc::guard(|| v.norm2()), want, 8.0 * (nf + 2.0) * T::EPS * want);
@@ -66,6 +76,9 @@ pub fn run_unary<T: W>(n: usize, fs: FillSet, shard: (usize, usize), seed: u64) 
             want.sort_by(|x, y| x.partial_cmp(y).unwrap());
             want.dedup();
             let cls = if want.len() < n { "with-duplicates" } else { "all-distinct" };
+            if adj && want.len() >= 2 {
+                mc::count("adjacent_unique_distinct_neighbours");
+            }
             expect_v::<T>(&Cx { op: "vec.unique", class: cls, what: &what }, mc::guard(|| v.unique()), &want, None);
         }
         "scalar" => {
@@ -132,6 +145,26 @@ pub fn run_unary<T: W>(n: usize, fs: FillSet, shard: (usize, usize), seed: u64) 
                     });
                     let w = || format!("{} at {} with {}", what(), i, x);
                     expect_v::<T>(&Cx { op: name, class: lc, what: &w }, res.map(|_| m), &want, None);
+                }
+            }
+        }
+        "approx_adjacent" => {
+            // approximate_eq(error) is the formula max|a-b| <= error; against a copy with one element
+            // moved by one or two ulps it is judged exactly (the difference of neighbouring floats is
+            // computed without rounding): error = 0, the difference itself, and its predecessor
+            expect_eq(&Cx { op: "vec.approximate_eq", class: lc, what: &what }, mc::guard(|| v.approximate_eq(&v.clone(), t(0.0))), true);
+            for k in 0..n {
+                for steps in [1, -1, 2, -2] {
+                    let mut c = a.clone();
+                    c[k] = crate::unary::ulps::<T>(a[k], steps);
+                    let diff = (c[k] - a[k]).abs();
+                    assert!(diff > 0.0 && rt::<T>(diff) == diff);
+                    let vc = vt::<T>(&c);
+                    for err in [0.0, diff, T::next_down(diff)] {
+                        let w = || format!("{} against a copy with element {} moved by {} ulp(s) to {:e} (difference {:e}), error {:e}", what(), k, steps, c[k], diff, err);
+                        expect_eq(&Cx { op: "vec.approximate_eq", class: lc, what: &w }, mc::guard(|| v.approximate_eq(&vc, t(err))), diff <= err);
+                        expect_eq(&Cx { op: "vec.approximate_eq", class: lc, what: &w }, mc::guard(|| vc.approximate_eq(&v, t(err))), diff <= err);
+                    }
                 }
             }
         }
